@@ -92,6 +92,92 @@ theorem removeS_get (h : Heap) (s : Slice) (v : String) (hw : h.WF s) :
     rw [getD_set_self h s.arr _ hw.1, List.take_append_of_le_length (by omega), List.take_of_length_le (by omega)]
     exact eraseIdx_idxOf? hi
 
+/-! ### `remove` after the repair: every occurrence (the old step, iterated) -/
+
+theorem idxOf?_of_not_mem {v : String} {l : List String} (h : v ∉ l) : idxOf? v l = none := by
+  cases hi : idxOf? v l with
+  | none => rfl
+  | some i =>
+    exfalso
+    have hlt := idxOf?_lt hi
+    have he := eraseIdx_idxOf? hi
+    have : (l.erase v).length = l.length := by rw [List.erase_of_not_mem h]
+    rw [← he, List.length_eraseIdx, if_pos hlt] at this
+    omega
+
+theorem removeS_arr (h : Heap) (s : Slice) (v : String) : (removeS h s v).2.arr = s.arr := by
+  cases hi : idxOf? v (h.get s) with
+  | none => rw [removeS_none hi]
+  | some i => rw [removeS_some hi]
+
+/-- the old step keeps the slice inside the heap -/
+theorem removeS_WF (h : Heap) (s : Slice) (v : String) (hw : h.WF s) : (removeS h s v).1.WF (removeS h s v).2 := by
+  cases hi : idxOf? v (h.get s) with
+  | none => rw [removeS_none hi]; exact hw
+  | some i =>
+    rw [removeS_some hi]
+    have hlen := Heap.get_length hw
+    have hi' := idxOf?_lt hi
+    have hl : ((h.get s).eraseIdx i).length = s.len - 1 := by
+      rw [List.length_eraseIdx]; simp only [hlen]; split <;> omega
+    have h2 := hw.2
+    refine ⟨by simpa using hw.1, ?_⟩
+    show s.len - 1 ≤ ((h.set s.arr _).getD s.arr []).length
+    rw [getD_set_self h s.arr _ hw.1, List.length_append, hl, List.length_drop]
+    omega
+
+theorem removeS_len_of_mem (h : Heap) (s : Slice) (v : String) (hm : v ∈ h.get s) :
+    (removeS h s v).2.len = s.len - 1 := by
+  cases hi : idxOf? v (h.get s) with
+  | none => exact absurd hm (idxOf?_none hi)
+  | some i => rw [removeS_some hi]
+
+theorem removeAllN_absent (n : Nat) (h : Heap) (s : Slice) (v : String) (hm : v ∉ h.get s) :
+    removeAllN n h s v = (h, s) := by
+  induction n with
+  | zero => rfl
+  | succ n ih =>
+    unfold removeAllN
+    rw [removeS_none (idxOf?_of_not_mem hm)]
+    exact ih
+
+theorem filter_ne_erase (v : String) (l : List String) : (l.erase v).filter (· ≠ v) = l.filter (· ≠ v) := by
+  induction l with
+  | nil => rfl
+  | cons x r ih =>
+    by_cases hx : x = v
+    · subst hx; simp
+    · have hne : (x == v) = false := by simpa using hx
+      rw [List.erase_cons, hne]
+      simp only [Bool.false_eq_true, if_false, List.filter_cons, ne_eq, hx, not_false_eq_true, decide_true, if_true]
+      rw [← ih]
+
+theorem removeAllN_get (n : Nat) (h : Heap) (s : Slice) (v : String) (hw : h.WF s) (hn : s.len ≤ n) :
+    (removeAllN n h s v).1.get (removeAllN n h s v).2 = (h.get s).filter (· ≠ v) := by
+  induction n generalizing h s with
+  | zero =>
+    have hl := Heap.get_length hw
+    have : h.get s = [] := List.eq_nil_of_length_eq_zero (by omega)
+    simp [removeAllN, this]
+  | succ n ih =>
+    by_cases hm : v ∈ h.get s
+    · unfold removeAllN
+      have hl := Heap.get_length hw
+      have hpos : 0 < (h.get s).length := List.length_pos_of_mem hm
+      rw [ih _ _ (removeS_WF h s v hw) (by rw [removeS_len_of_mem h s v hm]; omega), removeS_get h s v hw,
+        filter_ne_erase]
+    · rw [removeAllN_absent _ h s v hm]
+      symm
+      rw [List.filter_eq_self]
+      intro x hx
+      simp only [ne_eq, decide_not, Bool.not_eq_eq_eq_not, Bool.not_true, decide_eq_false_iff_not]
+      intro e; exact hm (e ▸ hx)
+
+/-- **`remove` (repaired) on its own slice**: every occurrence is gone, the rest keeps its order. -/
+theorem removeAllS_get (h : Heap) (s : Slice) (v : String) (hw : h.WF s) :
+    (removeAllS h s v).1.get (removeAllS h s v).2 = (h.get s).filter (· ≠ v) :=
+  removeAllN_get s.len h s v hw (Nat.le_refl _)
+
 theorem addnewS_mem {h : Heap} {s : Slice} {v : String} (hm : v ∈ h.get s) : addnewS h s v = (h, s) := by
   unfold addnewS; simp [hm]
 
@@ -153,6 +239,18 @@ theorem addnewS_frame (h : Heap) (s s' : Slice) (v : String) (hne : s'.arr ≠ s
       have : ∀ x : List String, (h ++ [x]).getD s'.arr [] = h.getD s'.arr [] := by
         intro x; simp [List.getD_eq_getElem?_getD, List.getElem?_append_left hin]
       rw [this]; rfl
+
+theorem removeAllN_frame (n : Nat) (h : Heap) (s s' : Slice) (v : String) (hne : s'.arr ≠ s.arr) :
+    (removeAllN n h s v).1.get s' = h.get s' := by
+  induction n generalizing h s with
+  | zero => rfl
+  | succ n ih =>
+    unfold removeAllN
+    rw [ih _ _ (by rw [removeS_arr]; exact hne), removeS_frame h s s' v hne]
+
+/-- **frame, `remove` (repaired)**: a slice of another backing array is not affected. -/
+theorem removeAllS_frame (h : Heap) (s s' : Slice) (v : String) (hne : s'.arr ≠ s.arr) :
+    (removeAllS h s v).1.get s' = h.get s' := removeAllN_frame s.len h s s' v hne
 
 /-- **no frame for slices of the same array** (the sharing defect): `addnew`
 through one slice changes what another slice of the same array shows. -/
